@@ -209,3 +209,15 @@ pin("multidecoder.decoders.chr.find_chr", CHR_RE=rb"(?i)chr(?:b|w|)[(]0*[0-9]{1,
 pin("multidecoder.decoders.xml.find_xml_hex", XML_ESCAPE_RE=rb"(?i)(?:&#(?:x[0-9a-f]{2}|25[0-5]|2[0-4][0-9]|[01]?[0-9]{1,2});){5,}")
 pin("multidecoder.decoders.codec.find_utf16",
     UTF16_RE=rb"(?s)(?:[\x09-\x0d\x20-\x7e\xa0-\xff]\x00){7,}(?:\x00\x00(?:\x00\x00)?(?:[\x09-\x0d\x20-\x7e\xa0-\xff]\x00){7,})*")
+
+# C13: the call forms named by the property and the bare base64 shape (a run of at least five groups of four or more alphabet characters, each optionally followed by
+# the wide-character artefact, an escaped or literal CR and an escaped or literal LF, then two or more alphabet characters and up to two '=')
+B64 = rb"[A-Za-z0-9+/]"
+pin("multidecoder.decoders.base64.find_atob", ATOB_RE=rb"atob[(](?:'|\")" + B64 + rb"+={0,2}(?:'|\")[)]")
+pin("multidecoder.decoders.base64.find_Base64Decode", BASE64DECODE_RE=rb"(?i)base64decode[(](?:'|\")[a-z0-9+/]+={0,2}(?:'|\")[)]")
+pin("multidecoder.decoders.base64.find_FromBase64String",
+    FROMB64STRING_RE=rb"(?i)(?:\[System.Convert\]::|)FromBase64String[(](?:'|\")[a-z0-9+/]+={0,2}(?:'|\")[)]")
+pin("multidecoder.decoders.hex.find_FromHexString",
+    FROMHEXSTRING_RE=rb"(?i)(?:\[System.Convert\]::|)FromHexString[(]'(?:(?:[0-9a-f][0-9a-f]){10,})'[)]")
+pin("multidecoder.decoders.base64.find_base64",
+    BASE64_RE=rb"(?:" + B64 + rb"{4,}(?:<\x00  \x00|)(?:&#13;|&#xD;|)(?:&#10;|&#xA;|)\r{0,1}\n{0,1}){5,}" + B64 + rb"{2,}={0,2}")
